@@ -176,3 +176,48 @@ func HarnessLeaderDisconnect() {
 		vAssert(string(b) == "BODY", "c05.leader-disconnect-fails-the-other-client")
 	}
 }
+
+// HarnessRaceCoalesced (C15): two clients of one coalesced fetch are two goroutines; all that
+// orders them is singleflight (the fetch function's completion happens before both Do calls
+// return).  What each of them does with the SHARED result afterwards must not conflict: no
+// unsynchronised write to the entry both were handed.
+func HarnessRaceCoalesced() {
+	e := newEnv(symChoice(2), 1<<30)
+	h := hdr("Cache-Control", "max-age=60", "Etag", "\"a\"")
+	e.o.script = []originResp{{status: 200, header: h, body: []byte("BODY")}}
+	reqA := newReq("GET", "o.test", "/c", "", nil)
+	reqB := newReq("GET", "o.test", "/c", "", nil)
+	key := cache.MakeFromRequest(reqA)
+	hdA := headers.ParseHeaderDirective(reqA.Header)
+	hdB := headers.ParseHeaderDirective(reqB.Header)
+	if symChoice(2) == 1 {
+		vClockFreeze(true)
+		e.plain(newReq("GET", "o.test", "/c", "", nil)) // the key is already stored and fresh: both hit
+		vReach("fresh-key")
+	}
+	vClockFreeze(true)
+	var rb fetchResult
+	var errB error
+	vRaceBegin()
+	go func() {
+		rb, errB = e.p.fetch.dedupFetch(reqB, key, hdB) // joins while the leader's fetch is in flight
+		if errB == nil {
+			data, _, _ := rb.getResponse()
+			drain(data)
+			data.Close()
+		}
+	}()
+	vSingleflightShared(true)
+	vSingleflightMode(0)
+	ra, errA := e.p.fetch.dedupFetch(reqA, key, hdA)
+	if errA == nil {
+		data, _, _ := ra.getResponse()
+		drain(data)
+		data.Close()
+	}
+	vSingleflightMode(1)
+	vRunPending()
+	vRaceEnd()
+	vReach("both-done")
+	vAssert(errA == nil && errB == nil, "c05.follower.no-answer")
+}
